@@ -1292,10 +1292,16 @@ def run(chk):
         '"some error reply with a SECoP class or some reply action" is demanded',
     ]
     chk.exhaustive = False
+    # requests of several connections are served one at a time (shared with C04 / C07): DispLock / DispSerial
+    from . import disp_serial
+    disp_serial.add(chk)
 
 
 def replay(chk, rep):
     d = rep['detail']
+    if 'serial' in d:
+        from . import disp_serial
+        return disp_serial.replay(chk, rep)
     kind = d.get('kind')
     if kind == 'framing':
         for gname, g in (('g1', GAMMA1), ('g2', GAMMA2)):
